@@ -24,7 +24,7 @@ ASSUMPTIONS = ["an instance's key is recovered from the element values it reads 
                "vp/model.py standalone simulation defines 'the mapped function run alone'; boundary inputs already valid at "
                "instance start are sampled (read as ticked) at that cycle, per the documented sampled-start rule",
                "g++-12 -O1 build of the working tree with harness-side shims"]
-FLOORS = {"epochs_checked": {"quick": 1200, "thorough": 20000}, "readd_epochs": {"quick": 150, "thorough": 2500},
+FLOORS = {"dictionary_repoints_with_surviving_instances": {"quick": 60, "thorough": 900}, "epochs_checked": {"quick": 1200, "thorough": 20000}, "readd_epochs": {"quick": 150, "thorough": 2500},
           "instance_runs_compared": {"quick": 8000, "thorough": 120000}, "output_ticks_compared": {"quick": 2000, "thorough": 35000},
           "timer_runs_in_instances": {"quick": 300, "thorough": 5000}, "map_key_throws": {"quick": 50, "thorough": 800}, "two_dictionary_epochs": {"quick": 80, "thorough": 1200},
           "key_left_one_dictionary_only": {"quick": 40, "thorough": 600},
@@ -189,6 +189,65 @@ def gen_case10(rng, name, idx):
     return c
 
 
+def gen_repoint_map_case(rng, name, idx):
+    """The mapped dictionary reaches map_ through a REFERENCE (a selection between two dictionary sources holding the same keys in
+    the same slots): on a re-point the per-key instances survive and have to be re-bound to the other dictionary's elements -
+    each sees the new element's current value as a tick, follows only the new dictionary afterwards, and keeps its state."""
+    for _ in range(50):
+        c = gen_case10(rng, name, 0)
+        if c.meta["kind"] == "fn1":
+            break
+    start, end = c.start, c.end
+    nk = rng.choice([2, 3, 5])
+    order = rng.sample(range(1, nk + 1), nk)
+    seq = {(u, k): 0 for u in (1, 2) for k in order}
+
+    def val(u, k):
+        seq[(u, k)] += 1
+        return k * 1000 + (500 if u == 2 else 0) + seq[(u, k)] % 500
+    for u in (1, 2):
+        sc = [f"{start}|" + ",".join(f"[{k}]={val(u, k)}" for k in order)]
+        for t in sorted(rng.sample(range(start + 1, end), rng.choice([4, 8, 14]))):
+            sc.append(f"{t}|" + ",".join(f"[{k}]={val(u, k)}" for k in rng.sample(order, rng.choice([1, 1, 2]))))
+        c.cscripts[u] = sc
+    v = rng.choice([0, 1])
+    cs = [(start, v)]
+    for t in sorted(rng.sample(range(start + 1, end), rng.choice([2, 4, 7]))):
+        if rng.random() < 0.8:
+            v = 1 - v
+        cs.append((t, v))
+    c.scripts[3] = cs
+    c.graphs["main"] = [S("a", "csrc", shape="tsd", uid=1), S("b", "csrc", shape="tsd", uid=2), S("c", "src", uid=3, mode=0),
+                        S("r", "ite", "c", "a", "b", uid=4), S("m", "map", "r", fn="fn1:0"), S("", "cmirror", "m", uid=11)]
+    c.meta["repoint"] = 1
+    return c
+
+
+def repoint_write_log(case, run):
+    """What the instances see through the reference, as one dictionary history: the selected dictionary's writes, and at a re-point
+    every key with the newly selected dictionary's current value."""
+    wls = {u: dict(write_log(run).get(u, [])) for u in (1, 2)}
+    cond = dict(case.scripts[3])
+    cur = {1: {}, 2: {}}
+    sel, out, repoints = None, {}, 0
+    for t in range(case.start, case.end):
+        for u in (1, 2):
+            for op in wls[u].get(t, []):
+                cur[u][int(op[1:op.index("]")])] = int(op[op.index("=") + 1:])
+        new = sel
+        if t in cond:
+            new = 1 if cond[t] != 0 else 2
+        if new is None:
+            continue
+        if new != sel:
+            out[t] = [f"[{k}]={v}" for k, v in cur[new].items()]
+            repoints += sel is not None
+            sel = new
+        elif t in wls[sel]:
+            out[t] = list(wls[sel][t])
+    return out, repoints
+
+
 def gen_nested_map_case(rng, name):
     """A map_ whose instances each run an INNER map_ over a shared dictionary handed to them as a whole: an inner map is created
     whenever an outer key appears (late, or again after a removal) and then has to pick up every key the shared dictionary
@@ -283,6 +342,7 @@ def generate(rng, tier, seed):
     n = scaled(200 if tier == "quick" else 3000)
     cases = [gen_case10(rng, f"c10_{seed}_{k}", k) for k in range(n)]
     cases += [gen_nested_map_case(rng, f"c10n_{seed}_{k}") for k in range(n // 5)]
+    cases += [gen_repoint_map_case(rng, f"c10r_{seed}_{k}", k) for k in range(n // 4)]
     # failure isolation between keys: the keyed-map fault pairs of C15 (fault-free twin + per-key captured faults)
     from .c15 import gen_map_pair
     k = got = 0
@@ -424,6 +484,9 @@ def check(case, tr):
     known = []
     known3 = []
     wl = dict(write_log(run).get(1, []))
+    repoints = 0
+    if case.meta.get("repoint"):
+        wl, repoints = repoint_write_log(case, run)
     eps = epochs_from_writes(wl, case.end)
     if case.meta["kind"] == "fnk2":
         eps = union_epochs(wl, dict(write_log(run).get(2, [])), case.end)
@@ -551,4 +614,8 @@ def check(case, tr):
                     "output_ticks_compared": out_cmp, "timer_runs_in_instances": timer_runs, "phantom_slots_seen": phantom,
                     "two_dictionary_epochs": two_dict, "key_left_one_dictionary_only": partial_leave}
     res.nontrivial = n_epochs >= 3 and readds >= 1
+    if case.meta.get("repoint"):
+        res.counters["dictionary_repoints_with_surviving_instances"] = repoints
+        res.counters["instances_followed_across_repoints"] = n_epochs if repoints else 0
+        res.nontrivial = repoints >= 1
     return res
